@@ -93,11 +93,13 @@ pub struct Cfg {
 
 pub trait ShapeOps: 'static {
     type Target: Clone + Default + 'static;
-    type Tl: Timeline<Target = Self::Target> + Clone + 'static;
+    type Tl: Timeline<Target = Self::Target> + Clone + mina::TimelineOrBuilder<Self::Tl> + 'static;
     const NAME: &'static str;
     /// (kind, animated?) for every field of the target struct, in declaration order
     fn fields() -> Vec<(&'static str, bool)>;
     fn build(cfg: &Cfg) -> Self::Tl;
+    /// the un-built configuration handed to `TimelineOrBuilder::build` (what `StateAnimatorBuilder::on(state, builder)` calls)
+    fn conf_merged(cfg: &Cfg) -> mina::MergedTimeline<Self::Tl>;
     fn to_vals(t: &Self::Target) -> Vec<V>;
     fn from_vals(v: &[V]) -> Self::Target;
 }
@@ -105,15 +107,8 @@ pub trait ShapeOps: 'static {
 macro_rules! shape_ops {
     ($marker:ident, $anim:ty, $target:ty, $name:literal, all: [$($f:ident : $k:literal : $t:ty),*], anim: [$($af:ident),*]) => {
         pub struct $marker;
-        impl ShapeOps for $marker {
-            type Target = $target;
-            type Tl = <$anim as Animate>::Timeline;
-            const NAME: &'static str = $name;
-            fn fields() -> Vec<(&'static str, bool)> {
-                let animated: &[&str] = &[$(stringify!($af)),*];
-                vec![$(($k, animated.contains(&stringify!($f)))),*]
-            }
-            fn build(cfg: &Cfg) -> Self::Tl {
+        impl $marker {
+            fn conf(cfg: &Cfg) -> (<$anim as Animate>::TimelineBuilder, u64) {
                 // The builder calls come in an order derived from the configuration itself (one of the 6! orders of the five
                 // setters and the keyframe block; a setter is sometimes called twice, first with a junk value): the result
                 // of a builder chain must not depend on the order of its calls, nor on values that were overwritten.
@@ -148,6 +143,22 @@ macro_rules! shape_ops {
                     dst.clone_from(&b);
                     b = dst;
                 }
+                (b, h)
+            }
+        }
+        impl ShapeOps for $marker {
+            type Target = $target;
+            type Tl = <$anim as Animate>::Timeline;
+            const NAME: &'static str = $name;
+            fn fields() -> Vec<(&'static str, bool)> {
+                let animated: &[&str] = &[$(stringify!($af)),*];
+                vec![$(($k, animated.contains(&stringify!($f)))),*]
+            }
+            fn conf_merged(cfg: &Cfg) -> mina::MergedTimeline<Self::Tl> {
+                mina::TimelineOrBuilder::build(Self::conf(cfg).0)
+            }
+            fn build(cfg: &Cfg) -> Self::Tl {
+                let (b, h) = Self::conf(cfg);
                 let built = mina::TimelineBuilder::build(b);
                 if (h >> 13) % 4 == 0 {
                     let mut other = mina::TimelineBuilder::build(<$anim>::timeline().reverse(!cfg.reverse.unwrap_or(false)).delay_seconds(3.0)
